@@ -20,6 +20,8 @@ CORPUS = [
     "#NEXUS\nBEGIN DATA;\n DIMENSIONS NTAX=2 NCHAR=3;\n FORMAT DATATYPE=DNA EQUATE=\"X=A\" MATCHCHAR=. ;\n MATRIX\n A A{CG}T\n B .(AC).\n ;\nEND;\n",
 ]
 
+NEWICK_CORPUS = ["((A:1,B:2)x:0.5,(C:1,D:1):1)r:0;\n(A,(B,(C,D)));\n", "[&R] ((A,B),,(C,));[c] (A:1e-2,'b c':2)[&x=1]:3;", "A;(B);((C));;;(A,B)"]
+
 TOKENS = [";", "BEGIN", "END", "TITLE", "LINK", "TAXA", "=", "FOO", ",", "(", ")", "'", "[", "1", "\"", "{", "-"]
 
 
@@ -54,13 +56,42 @@ def _candidates():
         if t not in seen:
             seen.add(t)
             yield ("literal", t)
+    # NEWICK sources, through the reader, the reader without a required final semicolon, and the one-tree-at-a-time iterator
+    nseen = set()
+    for doc in NEWICK_CORPUS:
+        texts = [("truncate@%d" % i, doc[:i]) for i in range(len(doc) + 1)]
+        for i in range(len(doc)):
+            texts.append(("delete@%d" % i, doc[:i] + doc[i + 1:]))
+            for tok in ("(", ")", ",", ":", ";", "[", "'"):
+                texts.append(("insert@%d:%s" % (i, tok), doc[:i] + tok + doc[i:]))
+        for how, t in texts:
+            if t in nseen:
+                continue
+            nseen.add(t)
+            for route in ("newick", "newick-nosemi", "newick-yield"):
+                yield ("%s|%s" % (route, how), t)
 
 
 class _Hang(Exception):
     pass
 
 
-def run_reader(text, limit=2.0):
+def _read(text, route):
+    import dendropy
+    if route == "nexus":
+        dendropy.DataSet.get(data=text, schema="nexus")
+    elif route == "newick":
+        dendropy.TreeList.get(data=text, schema="newick")
+    elif route == "newick-nosemi":
+        dendropy.TreeList.get(data=text, schema="newick", terminating_semicolon_required=False)
+    elif route == "newick-yield":
+        for t in dendropy.Tree.yield_from_files(files=[io.StringIO(text)], schema="newick"):
+            pass
+    else:
+        raise ValueError(route)
+
+
+def run_reader(text, limit=2.0, route="nexus"):
     """returns (kind, detail, frames): kind in ok | parse-error | hang | internal-error"""
     import dendropy
     from dendropy.utility import error as dperr
@@ -72,7 +103,7 @@ def run_reader(text, limit=2.0):
     signal.setitimer(signal.ITIMER_REAL, limit)
     try:
         try:
-            dendropy.DataSet.get(data=text, schema="nexus")
+            _read(text, route)
             return "ok", None, []
         finally:
             signal.setitimer(signal.ITIMER_REAL, 0)
@@ -101,7 +132,8 @@ _CACHE = {}
 
 def _work(item):
     how, text = item
-    kind, detail, frames = run_reader(text, 1.5)
+    route = how.split("|")[0] if "|" in how else "nexus"
+    kind, detail, frames = run_reader(text, 1.5, route)
     if kind in ("hang", "internal-error"):
         return [how, text, kind, detail, frames]
     return None
@@ -134,7 +166,7 @@ def replay_reader(ctx, suite, c, ob, witness, bv_widths):
             continue
         # the innermost reader frame must be this function (or the tokenizer below it)
         inner = [f for f in frames if f[0].startswith("_parse") or f[0].startswith("_read") or f[0].startswith("_process") or f[0].startswith("_consume")
-                 or f[0] in ("skip_to_semicolon",)]
+                 or f[0] in ("skip_to_semicolon", "tree_iter", "_yield_items_from_stream")]
         if inner and inner[-1][0] != fname:
             continue
         if not want_hang and ob.lineno and inner and inner[-1][1] != ob.lineno:
@@ -145,8 +177,9 @@ def replay_reader(ctx, suite, c, ob, witness, bv_widths):
         hits.sort()
         _, how, text, kind, detail = hits[0]
         ctx.obligation(ob.name, "refuted", "z3+native-replay", ob.time_s, c.target, detail="%s on %r" % (kind, text[-60:]))
-        ctx.fail(ob.name, dict(key="%s|%s" % (kind, text), text=text, found_by=how, outcome=kind, detail=detail, function=c.target),
-                 detail="real NEXUS reader: %s (%s) in %s on input ending %r" % (kind, detail, fname, text[-50:]), kind="T1")
+        route = how.split("|")[0] if "|" in how else "nexus"
+        ctx.fail(ob.name, dict(key="%s|%s|%s" % (route, kind, text), text=text, route=route, found_by=how, outcome=kind, detail=detail, function=c.target),
+                 detail="real %s reader: %s (%s) in %s on input ending %r" % (route, kind, detail, fname, text[-50:]), kind="T1")
         return True
     st = ob.status
     ctx.obligation(ob.name, st, "z3", ob.time_s, c.target, detail=ob.detail or "no native witness in the replay corpus")
@@ -164,6 +197,6 @@ def replay_record(ctx, rec):
     if text is None:
         print("no input recorded for this obligation (no-failing-input-found)")
         return True
-    kind, detail, frames = run_reader(text, 3.0)
-    print("input %r -> %s %s" % (text[-80:], kind, detail or ""))
+    kind, detail, frames = run_reader(text, 3.0, w.get("route", "nexus"))
+    print("%s input %r -> %s %s" % (w.get("route", "nexus"), text[-80:], kind, detail or ""))
     return kind in ("ok", "parse-error")
